@@ -3,6 +3,7 @@
 from __future__ import annotations
 
 import itertools
+import json
 import os
 import re
 import shutil
@@ -12,7 +13,7 @@ import numpy as np
 
 from mc.core import CORPUS
 from props import roundtrip
-from ref import periodic, units, writers
+from ref import periodic, units, wfwriters, writers
 
 LEVEL = "exploration"
 ANG = units.angstrom
@@ -45,12 +46,16 @@ def coord_files(z, xyz, cell):
     shells = [(0, 0, "c", [1.25], [1.0])]
     return {
         "xyz": ("m.xyz", writers.xyz(z, xyz, "t")),
-        "extxyz": ("m.extxyz", writers.extxyz(z, xyz, cell, energy=-1.5)),
+        "extxyz": ("m.extxyz", writers.extxyz(z, xyz, cell, energy=-1.5, masses_au=np.array(model_masses(z)) * units.amu)),
         "pdb": ("m.pdb", writers.pdb(z, xyz, "t")),
         "mol2": ("m.mol2", writers.mol2(z, xyz, "t")),
         "sdf": ("m.sdf", writers.sdf(z, xyz, "t")),
         "gromacs": ("m.gro", writers.gro(xyz, "t", 2.5 * units.picosecond, vel_au=np.full((n, 3), 0.25) * units.nanometer / units.picosecond, cell_bohr=cell)),
-        "charmm": ("m.crd", writers.crd(xyz, "t", weights=[WEIGHTS.get(zi, 2.0 * zi) for zi in z])),
+        "charmm": ("m.crd", writers.crd(xyz, "t", weights=model_masses(z))),
+        "fchk": ("m.fchk", wfwriters.fchk({"title": "t", "command": "SP", "lot": "RHF", "basis": "gen", "z": z, "cores": [float(v) for v in z], "xyz": xyz, "charge": int(sum(z) - 2),
+                                           "shells": [(0, 0, [1.25], [1.0], None)], "nalpha": 1, "nbeta": 1, "ea": [-0.5], "ca": [[1.0]], "masses_amu": model_masses(z), "energy": -1.5})),
+        "json_qcschema": ("m.json", json.dumps({"schema_name": "qcschema_molecule", "schema_version": 2, "symbols": [writers.sym(zi) for zi in z], "geometry": [float(v) for v in xyz.ravel()],
+                                                "masses": model_masses(z), "molecular_charge": 0, "molecular_multiplicity": 1 + sum(z) % 2})),
         "poscar": ("POSCAR", writers.poscar(sorted(z, reverse=True), xyz[np.argsort([-v for v in z], kind="stable")], cell, "t")[0]),
         "chgcar": ("CHGCAR", writers.poscar(sorted(z, reverse=True), xyz[np.argsort([-v for v in z], kind="stable")], cell, "t", grid=grid, grid_kind="chgcar")[0]),
         "locpot": ("LOCPOT", writers.poscar(sorted(z, reverse=True), xyz[np.argsort([-v for v in z], kind="stable")], cell, "t", grid=grid, grid_kind="locpot")[0]),
@@ -60,6 +65,11 @@ def coord_files(z, xyz, cell):
         "molden-angs": ("angs.molden", vendors.write_molden([(zi, *r) for zi, r in zip(z, xyz)], shells, orbs, "Angs")),
         "molekel": ("m.mkl", vendors.write_molekel([(zi, *r) for zi, r in zip(z, xyz)], shells, orbs, int(sum(z) - 2), 1)),
     }, grid
+
+
+def model_masses(z):
+    """Masses in unified atomic mass units (standard atomic weights, typed by hand above)."""
+    return [WEIGHTS.get(zi, 2.0 * zi) for zi in z]
 
 
 def sorted_by_z(z, arr):
@@ -83,7 +93,7 @@ def model_pairs(ctx):
             with warnings.catch_warnings():
                 warnings.simplefilter("ignore")
                 try:
-                    loaded[name] = load_one(path)
+                    loaded[name] = load_one(path, fmt="json_qcschema" if name == "json_qcschema" else None)
                 except Exception as exc:  # noqa: BLE001
                     ctx.violation("load", f"model:{name}:rejected", {"format": name, "molecule": imol}, f"reference file for {name} rejected: {exc!r} caused by {exc.__cause__!r}")
         vasp = {"poscar", "chgcar", "locpot"}
@@ -95,6 +105,8 @@ def model_pairs(ctx):
         quantities = {
             "atcoords": {n: (coords_of(n), sorted_by_z(z, xyz) if n in vasp else xyz, 0.6e-3 * units.nanometer if n == "gromacs" else 2e-3 * ANG if n == "pdb" else 2e-4 * ANG if n in ("mol2", "sdf") else 2e-5 * ANG) for n in loaded},
             "cellvecs": {n: (loaded[n].cellvecs, cell, 2e-5 * ANG) for n in ("extxyz", "gromacs", "poscar", "chgcar", "locpot", "cube") if n in loaded},
+            # masses: every carrier prints unified atomic mass units; the object must hold electron masses
+            "atmasses": {n: (loaded[n].atmasses, np.array(model_masses(z)) * units.amu, 1e-5 * units.amu if n == "charmm" else 1e-6 * units.amu) for n in ("extxyz", "charmm", "fchk", "json_qcschema") if n in loaded},
         }
         for qname, per in quantities.items():
             # every format against the model (unit factor typed by hand) ...
@@ -127,8 +139,6 @@ def model_pairs(ctx):
         if "gromacs" in loaded:
             g = loaded["gromacs"]
             checks += [("time", "gromacs", g.extra["time"], 2.5 * units.picosecond, 1e-6), ("velocities", "gromacs", g.extra["velocities"][0, 0], 0.25 * units.nanometer / units.picosecond, 1e-5)]
-        if "charmm" in loaded:
-            checks.append(("atmasses", "charmm", loaded["charmm"].atmasses[0], WEIGHTS.get(z[0], 2.0 * z[0]) * units.amu, 1e-6))
         if "chgcar" in loaded:
             checks.append(("density", "chgcar", loaded["chgcar"].cube.data[1, 0, 1], grid[1, 0, 1], 1e-8))
         if "locpot" in loaded:
@@ -206,6 +216,69 @@ def written_units(ctx):
         ctx.outcome("written-units", f"fchk-masses-dump{attempt}:amu" if ok else f"fchk-masses-dump{attempt}:WRONG")
         if not ok:
             ctx.violation("units", f"written:fchk:masses-not-in-amu:dump{attempt}", {"format": "fchk", "dump": attempt}, f"FCHK 'Real atomic weights' of dump {attempt}: {got.tolist()}, expected {masses_amu.tolist()} amu")
+    # ... and so are the masses in a written QCSchema molecule ("masses [u]") and in an extended XYZ file; the same after a
+    # conversion (load the independently written FCHK / extXYZ / CHARMM / QCSchema model file, dump to each mass-carrying writer)
+    from iodata import load_one
+
+    z, xyz, cell = molecules(ctx.seed, 1)[0]
+    files, _grid = coord_files(z, xyz, cell)
+    want = np.array(model_masses(z))
+    sources = {"object": attrs.evolve(obj, atmasses=masses_amu * units.amu)}
+    for src in ("fchk", "extxyz", "charmm", "json_qcschema"):
+        sp = str(tmp / ("conv_" + files[src][0]))
+        with open(sp, "w") as fh:
+            fh.write(files[src][1])
+        with warnings.catch_warnings():
+            warnings.simplefilter("ignore")
+            try:
+                sources[src] = load_one(sp, fmt="json_qcschema" if src == "json_qcschema" else None)
+            except Exception:  # noqa: BLE001  (reported by model_pairs)
+                continue
+    for src, sobj in sources.items():
+        if sobj.atmasses is None:
+            continue
+        expect = masses_amu if src == "object" else want
+        if sobj.atnums is None:
+            sobj = attrs.evolve(sobj, atnums=np.array(z), atcorenums=None)
+        for target in ("json_qcschema", "fchk"):  # (extended XYZ has no writer)
+            if target == "fchk" and sobj.mo is None:
+                continue
+            ctx.count()
+            ctx.nontrivial(("converted-masses", src, target))
+            path = str(tmp / f"conv_out.{ {'json_qcschema': 'json', 'extxyz': 'extxyz', 'fchk': 'fchk'}[target]}")
+            with warnings.catch_warnings():
+                warnings.simplefilter("ignore")
+                try:
+                    out = sobj
+                    if target == "json_qcschema":
+                        out = attrs.evolve(sobj, extra={**sobj.extra, "schema_name": "qcschema_molecule"}, charge=0 if sobj.charge is None else sobj.charge, spinpol=0, mo=None, obasis=None)
+                    dump_one(out, path, fmt=target)
+                except Exception as exc:  # noqa: BLE001
+                    ctx.outcome("converted-masses", f"{src}->{target}:not-dumpable:{type(exc).__name__}")
+                    continue
+            text = open(path).read()
+            if target == "json_qcschema":
+                doc = json.loads(text)
+                got = np.array((doc.get("molecule") or doc).get("masses", []), dtype=float)
+            elif target == "extxyz":
+                lines = text.splitlines()
+                m = re.search(r"Properties=(\S+)", lines[1])
+                cols, off = m.group(1).split(":"), 0
+                idx = None
+                for k in range(0, len(cols), 3):
+                    if cols[k] == "masses":
+                        idx = off
+                    off += int(cols[k + 2])
+                got = np.array([float(ln.split()[idx]) for ln in lines[2 : 2 + len(expect)]]) if idx is not None else np.array([])
+            else:
+                blk = text.split("Real atomic weights")[1].split("\n", 1)[1].split()
+                got = np.array([float(x) for x in blk[: len(expect)]])
+            ok = got.shape == expect.shape and np.abs(got - expect).max() < 2e-5
+            ctx.outcome("converted-masses", f"{src}->{target}:amu" if ok else f"{src}->{target}:WRONG")
+            if not ok:
+                ratio = float(got[0] / expect[0]) if got.shape == expect.shape and len(got) else None
+                ctx.violation("units", f"written:{target}:masses-not-in-amu", {"source": src, "target": target},
+                              f"masses loaded from {src} and written to {target}: {got.tolist()} , the format prescribes unified atomic mass units {expect.tolist()} (ratio {ratio})")
     for prog in ("gaussian", "orca"):
         ctx.count()
         from iodata import IOData
